@@ -297,6 +297,7 @@ func ruleFilterPredicates(c *Ctx) {
 		b, isC := constBool(retVal(r, 0))
 		return isC && b
 	}, []Ev{newNoMatchEv(tg, F(acm))}, all, "a store is accepted as target only if no consulted condition matched")
+	ruleStateFilterTable(c, cv, acm)
 	// label constraint / threshold / excluded filters
 	match := F(P.Func("server/schedule/placement", "MatchLabelConstraints"))
 	for _, m := range []string{"Source", "Target"} {
@@ -978,4 +979,58 @@ func ruleIsolationFilterFlag(c *Ctx) {
 	if n == 0 {
 		c.Undec(rule, "per-label flag in "+fnName(fn), "a boolean carried round the constraint loop", P.pos(fn.Pos()), "")
 	}
+}
+
+// ruleStateFilterTable: which condition list StoreStateFilter.Target consults
+// is decided by the three flags. Evaluated abstractly (ordeval.go) for every
+// flag combination with exactly one list reporting a match: the filter refuses
+// exactly when that list is the one the flags select — the leader list with
+// TransferLeader, the scatter list with MoveRegion ∧ ScatterRegion, the region
+// list with MoveRegion ∧ ¬ScatterRegion — and accepts when nothing matches.
+func ruleStateFilterTable(c *Ctx, cv func(string) int64, acm *ssa.Function) {
+	P := c.P
+	rule := c.Prop + "/filter-predicates"
+	tg := P.Method(filterPkg, "StoreStateFilter", "Target")
+	flags := map[string]*types.Var{}
+	for _, n := range []string{"TransferLeader", "MoveRegion", "ScatterRegion"} {
+		flags[n] = P.Field(filterPkg, "StoreStateFilter", n)
+	}
+	lists := []string{"leaderTarget", "scatterRegionTarget", "regionTarget"}
+	okT, detail := true, ""
+	for m := 0; m < 8; m++ {
+		tl, mv, sc := m&1 != 0, m&2 != 0, m&4 != 0
+		enabled := map[string]bool{"leaderTarget": tl, "scatterRegionTarget": mv && sc, "regionTarget": mv && !sc}
+		for li := -1; li < len(lists); li++ {
+			matching := ""
+			if li >= 0 {
+				matching = lists[li]
+			}
+			want := !(matching != "" && enabled[matching])
+			got, okE := ordEval(tg, nil, ordAssume{
+				val: func(v ssa.Value) (ordVal, bool) {
+					for n, f := range flags {
+						if isLoadOf(v, f) {
+							return ordVal{b: map[string]bool{"TransferLeader": tl, "MoveRegion": mv, "ScatterRegion": sc}[n], kind: 'b'}, true
+						}
+					}
+					return ordVal{}, false
+				},
+				callv: func(cl *ssa.Call, args []ordVal) (ordVal, bool) {
+					if !F(acm).Match(cl.Common()) {
+						return ordVal{}, false
+					}
+					for _, a := range args {
+						if a.kind == 'i' {
+							return ordVal{b: matching != "" && a.i == cv(matching), kind: 'b'}, true
+						}
+					}
+					return ordVal{}, false
+				}}, 2)
+			if !okE || got.kind != 'b' || got.b != want {
+				okT = false
+				detail = fmt.Sprintf("TransferLeader=%v MoveRegion=%v ScatterRegion=%v, only %q matching: answers %v (evaluated: %v), want %v", tl, mv, sc, matching, got.b, okE, want)
+			}
+		}
+	}
+	c.Check(okT, rule, "decision table of StoreStateFilter.Target", "each flag combination consults its own condition list (32 evaluations)", P.pos(tg.Pos()), detail)
 }
